@@ -892,6 +892,7 @@ func (ctrler *StakeCtrler) Commit() ([]byte, int64, xerrors.XError) {
 	}
 
 	ctrler.saveLastValidators(v0)
+	vhook.At("commit/stake/validators")
 
 	if v0%ctrler.rwdLedgUpInterval == 0 {
 		_ = ctrler.rwdHashDB.PutLastRewardHash(h2)
